@@ -132,12 +132,13 @@ def run_unit(unit, tier):
     out = dict(unit=unit, status='ok', failures=[], functions=[], clauses=[], rewrites=[], undecided_reason=None,
                canary=[], verus=None, lemmas=[], trusted=[])
     try:
-        g = gen.generate(REPO, tmpl, None)
+        g = gen.generate(REPO, tmpl, None, isolate=True)
     except (extract.LostAnchor, gen.TemplateError, extract.LexError) as e:
         out['status'] = 'undecided'
         out['undecided_reason'] = 'lost-anchor: %s' % e
         return out
     out['trusted'] = g['meta'].get('trusted', [])
+    out['skipped_fns'] = g.get('skipped', [])
     rlimit = u.get('rlimit', 30)
     res = run_verus_cached(unit, None, g['text'], rlimit)
     out['verus'] = dict(cmd=res['cmd'], wall_s=res['wall_s'], smt_ms=res['smt_ms'], cached=res['cached'], version=res.get('version'),
@@ -206,6 +207,8 @@ def run_unit(unit, tier):
         out['status'] = 'undecided'
         msgs = '; '.join(e['message'][:200] for e in res['errors'][:3])
         out['undecided_reason'] = 'verus: %s %s' % (msgs, res.get('stderr_tail', '')[-300:])
+        if out.get('skipped_fns'):
+            out['undecided_reason'] = 'lost-anchor: %s (left out; the rest of the unit then fails to compile: %s)' % ('; '.join(k['reason'] for k in out['skipped_fns']), msgs[:200])
         return out
     if res['status'] == 'fail':
         out['status'] = 'fail'
@@ -264,7 +267,7 @@ def run_unit(unit, tier):
 
     def canary(mode):
         try:
-            gc = gen.generate(REPO, tmpl, mode)
+            gc = gen.generate(REPO, tmpl, mode, isolate=True)
         except Exception as e:  # noqa
             return dict(mode=mode, ok=False, reason='gen: %s' % e)
         expect = [f['name'] for f in gc['functions'] if f['has_canary']]
